@@ -151,12 +151,62 @@ def opInsertMods : List V → Option V
                   ofOpt ofChars (if modsOkB pep ms then some (specInsert pep ms) else none)])
   | _ => none
 
+/-! ### options (`exclude_features`, `open_modification_bin_size`, default `decoy_prefix`) -/
+
+def ofXV : XV → V
+  | .fv v => ofFV v
+  | .cell none => atom "nan"
+  | .cell (some (.int i)) => list [atom "i", ofInt i]
+  | .cell (some (.text n)) => list [atom "t", ofNum n]
+  | .flag b => list [atom "b", ofBool b]
+
+/-- a `search_score` of such a name overwrites another key of the PSM dict / duplicates a derived
+column (pepxml.py:307): outside the model -/
+def reservedName (n : String) : Bool :=
+  fixedCols.contains n || n == "mass_diff" || n == "abs_mz_diff" || n == "num_matched_peptides"
+    || "charge_".isPrefixOf n
+
+def hitReserved (h : Hit) : Bool := (scoresOf h).any (fun kv => reservedName kv.1)
+
+def fileReserved (f : File) : Bool :=
+  match f with
+  | .malformed => false
+  | .doc runs => (hitContexts runs).any (fun c => hitReserved c.2.2)
+
+/-- `pepxml-opts opt(prefix) [file*] [excluded*] opt(bin)` → model of
+`read_pepxml(files, [decoy_prefix,] exclude_features=…, open_modification_bin_size=…)`:
+`[[[row opt(tag)]*] [[column [cell*]]*] [feature-column*]]` or `reject-<kind>`;
+`unmodelled` for a charge of 0 or a bin size ≤ 0, `unmodelled-name` for a reserved score name. -/
+def opPepxmlX : List V → Option V
+  | [p, fs, ex, b] => do
+      let pfx ← toOpt? toChars? p
+      let files ← toList? toFile? fs
+      let excl ← toList? toStr? ex
+      let bin ← toOpt? toRat? b
+      if files.any zeroCharge then some (atom "unmodelled") else
+      if bin.any (fun x => decide (x ≤ 0)) then some (atom "unmodelled") else
+      if files.any fileReserved then some (atom "unmodelled-name") else
+      some (match readPepxmlX (pfx.getD defaultPrefix) excl bin files with
+        | .error e => ofErr e
+        | .ok t => list [list (t.rows.map (fun o => list [ofRow o.row, ofOpt ofRat o.tag])),
+                         list (t.feats.map (fun kc => list [ofStr kc.1, list (kc.2.map ofXV)])),
+                         list (t.featCols.map ofStr)])
+  | _ => none
+
+/-- `pepxml-reserved [file*]` → `T` iff some search score has a reserved name -/
+def opReserved : List V → Option V
+  | [fs] => do
+      let files ← toList? toFile? fs
+      some (ofBool (files.any fileReserved))
+  | _ => none
+
 end Mk.Ops.Pepxml
 
 namespace Mk.Ops
 open Mk V Mk.Ops.Pepxml
 
 def pepxmlOps : List (String × (List V → Option V)) :=
-  [("pepxml", opPepxml), ("pepxml-spec", opSpec), ("logfeat", opLogFeat), ("insertmods", opInsertMods)]
+  [("pepxml", opPepxml), ("pepxml-spec", opSpec), ("logfeat", opLogFeat), ("insertmods", opInsertMods),
+   ("pepxml-opts", opPepxmlX), ("pepxml-reserved", opReserved)]
 
 end Mk.Ops
